@@ -43,6 +43,17 @@ def items(tier, seed):
                 terms.append(rnd.choice([f'{c}({rnd.choice(bases)})**n', f'{c}({rnd.choice(bases)})**n', 'n', '1', 'n**2']))
             t[name] = ' + '.join(terms)
         tuples.append(t)
+    if tier != 'quick':
+        # second family: pure geometric sequences over powers of 2, 3 (rank >= 2 exponent lattices, mixed multiplicities, signs), 3-4 goals
+        rnd2 = random.Random(6100 + seed)
+        for _ in range(400):
+            k = rnd2.choice([3, 3, 4])
+            t = {}
+            for name in 'xyzw'[:k]:
+                e2, e3 = rnd2.randint(-2, 5), rnd2.choice([0, 0, 1, 2, -1])
+                sign = '-' if rnd2.random() < 0.2 else ''
+                t[name] = f'({sign}{sp.Integer(2) ** e2 * sp.Integer(3) ** e3})**n'
+            tuples.append(t)
     its = [dict(name='T' + str(i) + str(t), kind='tuple', cfs=t, D=2 if tier == 'quick' else 3, src=str(t), budget=120 if tier == 'quick' else 400) for i, t in enumerate(tuples)]
     for name, src, goals in PROGRAMS:
         its.append(dict(name='P_' + name, kind='cli', src=src, goals=goals, D=2, budget=200))
